@@ -20,6 +20,12 @@ const jsonPath = modPath + "/stdlib/json"
 
 func propC17(c *Ctx) {
 	l := c.L
+	defer func() {
+		rjd := c.Rule("json-depth", "every growth of the scanner's nesting stack is followed by the maximum-depth test (encoding/json refuses documents nested deeper than 10000; so must Valid and Unmarshal)", 1)
+		ruleJSONDepth(c, rjd)
+		ran := c.Rule("array-nonnil", "the decoder builds arrays on a non-nil empty Array (an empty JSON array must marshal back as [] and not as null)", 1)
+		ruleArrayNonNil(c, ran)
+	}()
 	rw := c.Rule("enc-write", "every encoder that the type dispatch can return either writes to the encode state or aborts through the error helper on every path: an encoder that writes nothing produces a malformed document inside a container ({\"a\":,\"b\":1})", 10)
 	disp := l.Func(jsonPath, "objectEncoder")
 	esT := l.NamedType(jsonPath, "encodeState")
@@ -511,5 +517,13 @@ func propC02(c *Ctx) {
 			}
 		})
 	}
+	defer func() {
+		rdf := c.Rule("define-fresh", "a := declaration of a local is always compiled to OpDefineLocal, never to an assignment opcode: one fresh variable per executed declaration", 1)
+		ruleDefineFresh(c, rdf)
+	}()
+	defer func() {
+		rle := c.Rule("locals-elements", "an Eval session never overwrites an element of its saved locals: a captured variable's cell stays the variable that later fragments and earlier closures share (closures capture by reference)", 1)
+		ruleEvalLocalsElements(c, rle)
+	}()
 	c.Check(rt, "fast path resets the non-parameter locals", pos, resets, "the loop storing undefined into the locals lies on every path to the fast path", "the reused frame keeps the previous activation's locals: a closure that captured one of them (e.g. a catch variable) shares it across activations, unlike ordinary recursion")
 }
